@@ -153,7 +153,7 @@ def case_refs(case):
     res = {"case": case, "disagree": [], "oracle": [], "nontrivial": True}
     cp = RG.new_csvpaths(policy=["raise", "collect"], csvpath_policy=["raise", "collect"])
     # (zero, flag, blank: final values that are falsy but present)
-    g = ['~ id: A ~ $[1*][@zero = subtract(#n, #n) @flag = no() @blank = "" #b == "x" @v = count_lines() @t.k = #a @t.j = #n]']
+    g = ['~ id: A ~ $[1*][@zero = subtract(#n, #n) @flag = no() @blank = "" #b == "x" @v = count_lines() @t.k = #a @t.j = #n tally(#n)]']
     if case["two_members"]:
         g.append('~ id: B ~ $[1*][@w = count() yes()]')
         if case.get("empty_member"):
@@ -174,7 +174,13 @@ def case_refs(case):
     A = last[0]
     hdr = case["hdr"]
     track = ".A" if case["two_members"] else ""
-    h = [f'$[1][@r = $g.variables.v @q = $g.variables.t.k @z = $g.variables.t.nokey @r0 = $g.variables.zero @rf = $g.variables.flag '
+    # tracking values that come from the data: keys of all digits and keys that are words
+    import re as _re
+    tn = A["variables"].get("tally_n") if isinstance(A["variables"].get("tally_n"), dict) else {}
+    dkey = next((k_ for k_ in tn if _re.fullmatch(r"[0-9]+", str(k_))), None)
+    wkey = next((k_ for k_ in tn if _re.fullmatch(r"[a-z][a-z0-9_]*", str(k_))), None)
+    more = (f" @td = $g.variables.tally_n.{dkey}" if dkey is not None else "") + (f" @tw = $g.variables.tally_n.{wkey}" if wkey is not None else "")
+    h = [f'$[1][@r = $g.variables.v{more} @q = $g.variables.t.k @z = $g.variables.t.nokey @r0 = $g.variables.zero @rf = $g.variables.flag '
          f'@rb = $g.variables.blank @hv = $g.headers.{hdr}{track}]']
     cp.paths_manager.add_named_paths(name="h", paths=h)
     src = os.path.join("data", "probe.csv")
@@ -196,6 +202,10 @@ def case_refs(case):
     got = {"r": hv.get("r"), "q": hv.get("q"), "z": hv.get("z"), "hv": hv.get("hv"), "r0": hv.get("r0"), "rf": hv.get("rf"), "rb": hv.get("rb")}
     want = {"r": want_v, "q": want_q, "z": None, "hv": want_h, "r0": A["variables"].get("zero"), "rf": A["variables"].get("flag"),
             "rb": A["variables"].get("blank")}
+    if dkey is not None:
+        got["td"], want["td"] = hv.get("td"), tn[dkey]
+    if wkey is not None:
+        got["tw"], want["tw"] = hv.get("tw"), tn[wkey]
     for key in want:
         if got[key] != want[key] and not (key == "hv" and list(got[key] or []) == want[key]):
             res["oracle"].append({"what": f"reference ${'g'}: {key} does not evaluate to the value the most recent run left",
